@@ -169,6 +169,32 @@ func c09Check(c c09Case) error {
 		}
 		return fmt.Errorf("image length changed")
 	}
+	// (1b) the same ROM object again: change one header byte in the image, re-read, write back -> the changed image must survive
+	{
+		pos := c.FlipPos % 80
+		nv := c.FlipVal
+		if nv == c.Header[pos] {
+			nv ^= 0x55
+		}
+		want := append([]byte(nil), orig...)
+		want[0x7FB0+pos] = nv
+		r.Contents[0x7FB0+pos] = nv
+		if err := r.ReadHeader(); err != nil {
+			return fmt.Errorf("second ReadHeader: %v", err)
+		}
+		if err := r.WriteHeader(); err != nil {
+			return fmt.Errorf("second WriteHeader: %v", err)
+		}
+		if !bytes.Equal(r.Contents, want) {
+			i := firstDiff(r.Contents, want)
+			return fmt.Errorf("second ReadHeader+WriteHeader on the same ROM object changed image byte at cartridge $%04X: %02x -> %02x (byte $%04X had been edited to %02x before re-reading)", 0x8000+i&0x7FFF, want[i], r.Contents[i], 0xFFB0+pos, nv)
+		}
+		// back to the original image for the remaining checks
+		r.Contents[0x7FB0+pos] = c.Header[pos]
+		if err := r.ReadHeader(); err != nil {
+			return fmt.Errorf("third ReadHeader: %v", err)
+		}
+	}
 	// (2) serialise -> 80 bytes -> parse back -> identical header
 	var buf bytes.Buffer
 	if err := r.Header.WriteHeader(&buf); err != nil {
@@ -229,7 +255,10 @@ func c09Check(c c09Case) error {
 
 func c09Gen(t *rapid.T) c09Case {
 	hdr := rapid.SliceOfN(rapid.Byte(), 80, 80).Draw(t, "header")
-	switch rapid.IntRange(0, 5).Draw(t, "version-bias") {
+	switch rapid.IntRange(0, 6).Draw(t, "version-bias") {
+	case 6: // both markers at once: $33 wins
+		hdr[0x2A] = 0x33
+		hdr[0x24] = 0
 	case 0, 1:
 		hdr[0x2A] = 0x33
 	case 2, 3:
@@ -298,6 +327,20 @@ func TestC09(t *testing.T) {
 					r.CheckSweep(fmt.Sprintf("flip-v%d", ver), c, func() error { return c09Check(c) })
 					ev.Case(true, rig.Hash64(c.Header, c.Banks, c.Tail, c.FlipPos, c.FlipVal), func() interface{} { return c })
 					ev.Class(fmt.Sprintf("systematic-flip/v%d", ver))
+				}
+			}
+			// the four combinations of the two version markers, each with the neighbouring values
+			for _, mk := range []byte{0x32, 0x33, 0x34, 0x00} {
+				for _, t20 := range []byte{0x00, 0x01, 0x20, 0xFF} {
+					hdr := make([]byte, 80)
+					for i := range hdr {
+						hdr[i] = rig.Mix(uint32(rig.Seed())+99, uint32(i)) | 1
+					}
+					hdr[0x2A], hdr[0x24] = mk, t20
+					c := c09Case{Header: hdr, Banks: 1, FlipPos: 0x3A, FlipVal: 0x5A}
+					r.CheckSweep("markers", c, func() error { return c09Check(c) })
+					ev.Case(true, rig.Hash64(c.Header, c.Banks, c.Tail, c.FlipPos, c.FlipVal), func() interface{} { return c })
+					ev.Class("systematic-version-markers")
 				}
 			}
 			r.Rapid("rapid", rig.Pick(12000, 80000), func(t *rapid.T) {
